@@ -212,7 +212,16 @@ def run(ctx):
     if not rets:
         raise AnalysisError('Dataset.drop: no return')
     for r, v in rets:
-        ctx.ob('project-consistent', drop, r, v == want,
+        ok = v == want
+        if not ok and isinstance(v, tuple) and len(v) == 4 and v[0] == 'Dataset':
+            # built directly: the constructor re-selects the frame's columns by the domain it is given, so any frame that still HAS those columns
+            # (self.df, or self.df with columns dropped by name) serves; domain and weights must be the complement projection and self.weights
+            import re as _re
+            frame_ok = v[1] == ('frame', 'self.df') or (v[1][0] == 'opaque' and _re.fullmatch(
+                r"self\.df\.drop\((columns=)?%s(,axis=1)?(,errors='ignore')?\)" % _re.escape(d_cols), str(v[1][1]).replace(' ', '')) is not None)
+            dom_ok = v[2] == ('project', ('dom', 'self.domain'), want[3])
+            ok = frame_ok and dom_ok and v[3] == ('weights', 'self')
+        ctx.ob('project-consistent', drop, r, ok,
                'drop must project onto the domain\'s attributes not in the list, in domain order; returns `%s`' % show(v))
 
     # ---- histogram -------------------------------------------------------------------------------------
